@@ -26,12 +26,16 @@ def setup(wd):
     return {"XSH": XSH, "wd": wd, "n": 0}
 
 
+class QueueStuck(Exception):
+    pass
+
+
 def _wait_quiet(hist):
     t0 = time.time()
-    while getattr(hist, "_queue", None) and time.time() - t0 < 20:
+    while getattr(hist, "_queue", None) and time.time() - t0 < 8:
         time.sleep(0.002)
     if getattr(hist, "_queue", None):
-        raise RuntimeError("history flusher queue did not drain (deadlock?)")
+        raise QueueStuck("history ticket queue did not drain within 8 s")
 
 
 def run(ctx, scn):
@@ -62,22 +66,35 @@ def run(ctx, scn):
     XSH.history = hist
     steps = []
     n = 0
+    stuck = False
     try:
         for st in scn["steps"]:
             cmd = st["cmd"]
             obs = {}
+            if stuck:
+                break
+            try:
+                _wait_quiet(hist)
+            except QueueStuck as e:
+                # an observation, not a harness failure: the history is wedged
+                steps.append({"cmd": "read", "t": "", "rtn": 0, "spc": False, "obs": {"len": -1, "views": {"error": [{"t": str(e), "rtn": -1}]}}})
+                stuck = True
+                break
             if cmd == "append":
                 n += 1
                 hist.append({"inp": pool[st["t"]], "rtn": int(st["rtn"]), "ts": [1000.0 + n, 1000.5 + n], "spc": bool(st["spc"]), "out": "o"})
-                _wait_quiet(hist)
             elif cmd == "flush":
                 hist.flush()
-                _wait_quiet(hist)
             elif cmd == "read":
                 if not sqlite and set(conf["opts"]) & {"ignoredups", "ignoreerr"}:
                     # the JSON back end applies these rules when it flushes: read after a flush
                     hist.flush()
-                _wait_quiet(hist)
+                try:
+                    _wait_quiet(hist)
+                except QueueStuck as e:
+                    steps.append({"cmd": "read", "t": "", "rtn": 0, "spc": False, "obs": {"len": -1, "views": {"error": [{"t": str(e), "rtn": -1}]}}})
+                    stuck = True
+                    break
 
                 def ent(inp, rtn):
                     return {"t": inv.get(inp, "?" + repr(inp)[:40]), "rtn": rtn}
